@@ -199,6 +199,8 @@ func main() {
 		cmdGen(os.Args[2:])
 	case "memio":
 		cmdMemio()
+	case "cpmglue":
+		cmdCPMGlue()
 	case "par":
 		cmdPar(os.Args[2:])
 	case "ctx":
